@@ -88,7 +88,7 @@ static size_t der_emit_list(int first, uint8_t *out, size_t cap)
 		if (g_dn[id].drop) continue;
 		size_t k = der_emit(id, out + n, cap - n);
 		n += k;
-		if (g_dn[id].dup && cap - n > k) { memcpy(out + n, out + n - k, k); n += k; }
+		for (int rep = 0; rep < g_dn[id].dup && cap - n > k + 64; rep++) { memcpy(out + n, out + n - k, k); n += k; }
 		if (cap - n < 64) break;
 	}
 	return n;
@@ -148,7 +148,8 @@ static size_t der_mutate(Rng *r, const uint8_t *cert, size_t certlen, uint8_t *o
 		int kind = (int)rng_below(r, 10);
 		switch (kind) {
 		case 0: case 1: case 2: d->lenmode = 1 + (int)rng_below(r, 8); snprintf(what, wl, "der_len%d@node%d(tag%02x)", d->lenmode, id, d->tag); break;
-		case 3: d->dup = 1; snprintf(what, wl, "der_dup@node%d(tag%02x)", id, d->tag); break;
+		case 3: d->dup = rng_chance(r, 1, 2) ? 1 : 2 + (int)rng_below(r, 30);        /* once, or a whole run of copies (SEQUENCE OF beyond its receiver's array) */
+			snprintf(what, wl, "der_dup%d@node%d(tag%02x)", d->dup, id, d->tag); break;
 		case 4: d->drop = 1; snprintf(what, wl, "der_drop@node%d(tag%02x)", id, d->tag); break;
 		case 5: d->tag = (uint8_t)rng_u64(r); snprintf(what, wl, "der_tag@node%d->%02x", id, d->tag); break;
 		case 6: { /* long OID: 1..40 arcs, some 5-byte arcs, into some OID node */
@@ -175,6 +176,19 @@ static size_t der_mutate(Rng *r, const uint8_t *cert, size_t certlen, uint8_t *o
 			memset(b, v == 0 ? 0x00 : v == 1 ? 0xff : 0x80, k);
 			d->own = b; d->ownlen = k; d->constructed = 0;
 			snprintf(what, wl, "der_content_%zux%02x@node%d(tag%02x)", k, b[0], id, d->tag);
+			break; }
+		case 8: { /* time values whose fields are digits but out of range (month 13..99, day 00/32.., hour 24..) */
+			int tries = 0, o = id;
+			while (g_dn[o].tag != 0x17 && g_dn[o].tag != 0x18 && tries++ < 60) o = (int)rng_below(r, (uint32_t)g_ndn);
+			if ((g_dn[o].tag != 0x17 && g_dn[o].tag != 0x18) || g_nown >= 4 || g_dn[o].rawlen < 12 || g_dn[o].rawlen > 40) break;
+			uint8_t *b = g_own[g_nown++];
+			memcpy(b, g_dn[o].raw, g_dn[o].rawlen);
+			size_t base = g_dn[o].tag == 0x18 ? 2 : 0;                 /* GeneralizedTime has a 4-digit year */
+			int field = 1 + (int)rng_below(r, 5);                      /* month, day, hour, minute, second */
+			static const char *bad[] = { "00", "13", "19", "24", "32", "60", "61", "99" };
+			memcpy(b + base + 2 * (size_t)field, bad[rng_below(r, 8)], 2);
+			g_dn[o].own = b; g_dn[o].ownlen = g_dn[o].rawlen;
+			snprintf(what, wl, "der_time_field%d=%c%c@node%d", field, b[base + 2 * field], b[base + 2 * field + 1], o);
 			break; }
 		default: { /* random byte inside a leaf */
 			if (d->constructed || !d->rawlen || g_nown >= 4 || d->rawlen > 600) break;
@@ -459,7 +473,20 @@ static void byz_on_record(Conn *c, int dir, int idx, const uint8_t *rec_in, size
 			return;
 		}
 	}
-	/* anything else (CCS, CBC-protected Finished, data): raw byte-level damage */
+	/* anything else (CCS, CBC-protected Finished, data): raw byte-level damage, or a record of the same type whose
+	 * body has another (block-aligned or not, small or maximal) size than its receiver's staging buffer expects */
+	if (rng_chance(&r, 1, 3)) {
+		static const size_t sizes[] = { 1, 16, 32, 48, 320, 336, 1024, 4096, 16384, 16400, 18432 };
+		size_t bl = sizes[rng_below(&r, 11)];
+		memcpy(plain, rec_in, 5);
+		rng_bytes(&r, plain + 5, bl > 64 ? 64 : bl);
+		if (bl > 64) memset(plain + 5 + 64, 0x3c, bl - 64);
+		plain[3] = (uint8_t)(bl >> 8); plain[4] = (uint8_t)bl;
+		snprintf(what, 96, "protected_record_resized_%zu", bl);
+		g_byz_fired++;
+		net_forward(c, dir, plain, 5 + bl);
+		return;
+	}
 	memcpy(plain, rec_in, len);
 	int k = 1 + (int)rng_below(&r, 4);
 	for (int i = 0; i < k; i++) plain[5 + rng_below(&r, (uint32_t)(len - 5))] ^= (uint8_t)(1u << rng_below(&r, 8));
@@ -481,6 +508,7 @@ static void byz_gen(Plan *p, uint64_t base_seed, uint64_t variant, int tier)
 	p->interpose = 1;
 	p->eagain = 0;
 	gen_rounds(p, &g, tier, 1, 300);
+	if (rng_chance(&g, 1, 3)) p->cred_mode |= 1;       /* certificates with an extendedKeyUsage extension */
 	/* twin: how many handshake records does each direction carry? */
 	if (getenv("GMSIM_GEN_NOTWIN")) return;
 	uint64_t key = hash_bytes(0xb7, &p->sched_seed, 8) ^ (uint64_t)p->proto ^ ((uint64_t)p->mutual << 8) ^ ((uint64_t)p->depth << 16);
@@ -533,7 +561,7 @@ static void byz_run(const Plan *p, RunResult *r)
 	g_bp = p; g_byz_fired = 0; g_byz_reenc = 0;
 	memset(g_byz_what, 0, sizeof(g_byz_what));
 	rng_seed(&g_brng, (uint64_t)p->plan_seed, 0xb13);
-	conn_run(p, creds_get((int)p->depth, p->proto == P_TLCP), &o, byz_on_record, NULL);
+	conn_run(p, (p->cred_mode & 1) ? creds_get_eku((int)p->depth, p->proto == P_TLCP) : creds_get((int)p->depth, p->proto == P_TLCP), &o, byz_on_record, NULL);
 	r->faults_fired[F_MUT] = g_byz_fired;
 	r->nontrivial = g_byz_fired > 0;
 	if (p->afail_at >= 0) {
